@@ -84,7 +84,16 @@ pub fn deliver_add(tracker: &mut ChainTracker<ChainMonitor>, block: &Block, want
 
 /// The same for the disconnection of the tip `block`.
 pub fn deliver_remove(tracker: &mut ChainTracker<ChainMonitor>, block: &Block, want_streamed: bool) -> Result<bool, lightning_signer::chain::tracker::Error> {
-    let prev = tracker.headers()[0].clone();
+    // the previous headers as the tracker remembers them; if its window is exhausted the request names the parent by
+    // hash only (the tracker then answers ReorgTooDeep unless deep reorgs are allowed)
+    let prev = match tracker.headers().get(0) {
+        Some(p) => p.clone(),
+        None => {
+            let mut h = block.header;
+            h.prev_blockhash = lightning_signer::bitcoin::BlockHash::all_zeros();
+            lightning_signer::chain::tracker::Headers(h, lightning_signer::bitcoin::hash_types::FilterHeader::all_zeros())
+        }
+    };
     let h = tracker.height();
     let proof = compact_proof(tracker, block, &prev.1, h, true);
     let secp = lightning_signer::bitcoin::secp256k1::Secp256k1::new();
